@@ -26,7 +26,9 @@ impl<K, V> HashMap<K, V> {
     pub uninterp spec fn key_order(&self) -> Seq<K>;
     pub open spec fn pairs(&self) -> Seq<(K, V)> { Seq::new(self.key_order().len(), |i: int| (self.key_order()[i], self.view()[self.key_order()[i]])) }
     pub open spec fn order_ok(&self) -> bool {
-        self.key_order().no_duplicates() && (forall|k: K| self.view().contains_key(k) <==> self.key_order().contains(k))
+        self.key_order().no_duplicates()
+        && (forall|k: K| #![trigger self.view().dom().contains(k)] #![trigger self.view().contains_key(k)] #![trigger self.key_order().contains(k)] self.view().dom().contains(k) <==> self.key_order().contains(k))
+        && (forall|i: int| 0 <= i < self.key_order().len() ==> self.view().dom().contains(#[trigger] self.key_order()[i]))
     }
     #[verifier::external_body] pub fn new() -> (r: Self) ensures r.view() == Map::<K, V>::empty() { unimplemented!() }
     #[verifier::external_body] pub fn insert(&mut self, k: K, v: V) -> (o: Option<V>)
@@ -39,15 +41,15 @@ impl<K, V> HashMap<K, V> {
     #[verifier::external_body] pub fn into_iter(self) -> (r: VxIter<(K, V)>) ensures r.items() == self.pairs(), self.order_ok() { unimplemented!() }
     #[verifier::external_body] pub fn iter(&self) -> (r: VxIter<(&K, &V)>)
         ensures self.order_ok(), r.items().len() == self.key_order().len(),
-            forall|i: int| 0 <= i < r.items().len() ==> *(#[trigger] r.items()[i]).0 == self.key_order()[i] && *r.items()[i].1 == self.view()[self.key_order()[i]],
+            forall|i: int| #![trigger r.items()[i]] #![trigger self.key_order()[i]] 0 <= i < r.items().len() ==> *r.items()[i].0 == self.key_order()[i] && *r.items()[i].1 == self.view()[self.key_order()[i]],
     { unimplemented!() }
     #[verifier::external_body] pub fn keys(&self) -> (r: VxIter<&K>)
         ensures self.order_ok(), r.items().len() == self.key_order().len(),
-            forall|i: int| 0 <= i < r.items().len() ==> *(#[trigger] r.items()[i]) == self.key_order()[i],
+            forall|i: int| #![trigger r.items()[i]] #![trigger self.key_order()[i]] 0 <= i < r.items().len() ==> *r.items()[i] == self.key_order()[i],
     { unimplemented!() }
     #[verifier::external_body] pub fn values(&self) -> (r: VxIter<&V>)
         ensures self.order_ok(), r.items().len() == self.key_order().len(),
-            forall|i: int| 0 <= i < r.items().len() ==> *(#[trigger] r.items()[i]) == self.view()[self.key_order()[i]],
+            forall|i: int| #![trigger r.items()[i]] #![trigger self.key_order()[i]] 0 <= i < r.items().len() ==> *r.items()[i] == self.view()[self.key_order()[i]],
     { unimplemented!() }
 }
 /// key_order() is by definition a duplicate-free enumeration of exactly the keys (trusted axiom of the model)
